@@ -57,7 +57,9 @@ def gen_cache_case(rng, tier):
             ops.append(["discard", m])
             live.remove(m)
         else:
-            ops.append(["explainer", nexpl, rng.choice(live)])
+            # half of the explainers are built with output_layer=-1 (the model's own last layer: the same function,
+            # reached through the white-box reconfiguration path)
+            ops.append(["explainer", nexpl, rng.choice(live)] + ([-1] if rng.random() < 0.5 else []))
             nexpl += 1
     if nexpl == 0 and live:
         ops.append(["explainer", 0, rng.choice(live)])
@@ -73,6 +75,11 @@ def gen_history_case(rng, what):
     if rng.random() < 0.4:
         calls[2] = dict(calls[0])         # the same call again: idempotence
     case = dict(stream="history", what=what, calls=calls, model_seed=rng.randrange(1 << 30))
+    if rng.random() < 0.4:
+        # batch_size=None (derived from the first call's N when resolved late): N grows from call to call
+        case["bs_none"] = True
+        for c, n in zip(calls, (1, 3, 2)):
+            c["n"] = n
     if what in METHODS:
         case["reweight"] = True            # the model is updated after the calls; an explainer created THEN must explain it
     if what in ("Deletion", "Insertion"):
@@ -86,6 +93,13 @@ def generate(rng, tier):
     for _ in range(reps):
         for i, w in enumerate(METHODS + METRICS + METRICS):   # metrics twice: their state (stored inputs, masks) is the likeliest to leak
             cases.append(gen_history_case(rng, w))
+            if w in ("SmoothGrad", "SquareGrad", "VarGrad"):
+                # the gradient statistics derive their working batch size from N when batch_size is None: always covered
+                c2 = gen_history_case(rng, w)
+                c2["bs_none"] = True
+                for c, n in zip(c2["calls"], (1, 3, 2)):
+                    c["n"] = n
+                cases.append(c2)
             if w in ("Deletion", "Insertion"):
                 # first pass: scalar / default baselines; second pass: a function handing out a persistent array
                 cases[-1]["baseline"] = rng.choice(["scalar", None]) if i < len(METHODS + METRICS) else "persistent"
@@ -166,7 +180,7 @@ def run_cache(case):
             trace.append(["discard", o[1]])
         else:
             e, k = o[1], o[2]
-            expl[e] = Saliency(models[k])
+            expl[e] = Saliency(models[k], output_layer=o[3]) if len(o) > 3 else Saliency(models[k])
             trace.append(["explainer", e, k])
     # which function does each explainer explain?  gradient of w*x0 + 2w*x1 is (w, 2w)
     x = np.array([[1.0, 1.0]], np.float32)
@@ -208,7 +222,7 @@ def content_map(inp):
     return above * 2 + cols
 
 
-def make_object(what, model, inputs=None, targets=None, baseline=None):
+def make_object(what, model, inputs=None, targets=None, baseline=None, bs=4):
     import xplique.attributions as A
     import xplique.metrics as M
     kw = dict(
@@ -219,14 +233,14 @@ def make_object(what, model, inputs=None, targets=None, baseline=None):
         KernelShap=dict(nb_samples=12, map_to_interpret_space=content_map), SobolAttributionMethod=dict(grid_size=2, nb_design=4),
         HsicAttributionMethod=dict(grid_size=2, nb_design=8))
     if what in kw:
-        return getattr(A, what)(model, batch_size=4, **kw[what])
+        return getattr(A, what)(model, batch_size=bs, **kw[what])
     if what in ("Deletion", "Insertion"):
         if baseline is None:
-            return getattr(M, what)(model, inputs, targets, batch_size=4, steps=4)
-        return getattr(M, what)(model, inputs, targets, batch_size=4, steps=4, baseline_mode=baseline)
+            return getattr(M, what)(model, inputs, targets, batch_size=bs, steps=4)
+        return getattr(M, what)(model, inputs, targets, batch_size=bs, steps=4, baseline_mode=baseline)
     if what == "MuFidelity":
-        return M.MuFidelity(model, inputs, targets, batch_size=4, grid_size=4, nb_samples=6)
-    return M.AverageStability(model, inputs, targets, batch_size=4, nb_samples=3)
+        return M.MuFidelity(model, inputs, targets, batch_size=bs, grid_size=4, nb_samples=6)
+    return M.AverageStability(model, inputs, targets, batch_size=bs, nb_samples=3)
 
 
 def call_data(c):
@@ -248,6 +262,7 @@ def seeded(seed):
 def run_history(case):
     import tensorflow as tf
     what = case["what"]
+    BS = None if case.get("bs_none") else 4
     model = conv_model(case["model_seed"])
     weights_before = [w.tobytes() for w in model.get_weights()]
     eager_before = tf.config.functions_run_eagerly()
@@ -270,17 +285,17 @@ def run_history(case):
                     return lambda inputs: mine
                 return 0.25 if case.get("baseline") == "scalar" else None
             keep = []
-            obj = make_object(what, model, x0, t0, bl())
+            obj = make_object(what, model, x0, t0, bl(), bs=BS)
         else:
             seeded(case["model_seed"])
-            obj = make_object(what, model)
+            obj = make_object(what, model, bs=BS)
         for c in case["calls"]:
             x, t, e = call_data(c)
             xb, tb, eb = x.tobytes(), t.tobytes(), e.tobytes()
             for target_list, o in ((results, obj), (fresh, None)):
                 if o is None:
                     seeded(case["model_seed"])
-                    o = make_object(what, model, *((x0, t0, bl()) if is_metric else ()))
+                    o = make_object(what, model, *((x0, t0, bl()) if is_metric else ()), bs=BS)
                 seeded(c["seed"])
                 if not is_metric:
                     out = np.asarray(o.explain(x, t))
@@ -304,7 +319,7 @@ def run_history(case):
             x, t, _ = call_data(case["calls"][0])
             for target_list, mdl in ((results, model), (fresh, twin)):
                 seeded(case["model_seed"])
-                o = make_object(what, mdl)
+                o = make_object(what, mdl, bs=BS)
                 seeded(case["calls"][0]["seed"])
                 target_list.append([float(v) for v in np.asarray(o.explain(x, t), dtype=np.float64).reshape(-1)])
     finally:
